@@ -168,21 +168,24 @@ Inductive dv_err :=
 | MalformedSignature                 (* declared in the source, constructed nowhere *)
 | PeerIdNotFound (peer : string)
 | SignatureMismatch (peer : string)
-| MergeMismatch (peer : string).
+| MergeMismatch (peer : string)
+| CidNotFound.                       (* since the fix of collect_peers_cids_from_trace: a trace CID absent from the store
+                                        (raised while the per-peer CID lists are collected, i.e. before this model starts) *)
 
 Definition dv_err_name (e : dv_err) : string :=
   match e with
   | MalformedKey _ => "MalformedKey" | MalformedSignature => "MalformedSignature"
   | PeerIdNotFound _ => "PeerIdNotFound" | SignatureMismatch _ => "SignatureMismatch"
-  | MergeMismatch _ => "MergeMismatch"
+  | MergeMismatch _ => "MergeMismatch" | CidNotFound => "CidNotFound"
   end%string.
 Definition dv_err_subject (e : dv_err) : string :=
   match e with
   | MalformedKey k => k | MalformedSignature => ""%string
   | PeerIdNotFound p => p | SignatureMismatch p => p | MergeMismatch p => p
+  | CidNotFound => ""%string
   end.
 Definition all_dv_err_names : list string :=
-  ["MalformedKey"; "MalformedSignature"; "PeerIdNotFound"; "SignatureMismatch"; "MergeMismatch"]%string.
+  ["MalformedKey"; "MalformedSignature"; "PeerIdNotFound"; "SignatureMismatch"; "MergeMismatch"; "CidNotFound"]%string.
 
 Inductive dres (A : Type) := DOk (a : A) | DErr (e : dv_err).
 Arguments DOk {A} a. Arguments DErr {A} e.
@@ -431,7 +434,7 @@ Definition C15_reject_run_stmt : Prop :=
 (* tie to the source: the error enumeration is the generated one (tools/genx_sig.py) *)
 Definition dv_err_table_agrees : bool :=
   list_eqb String.eqb all_dv_err_names data_verifier_error_variants &&
-  list_eqb String.eqb data_verifier_error_constructed ["MalformedKey"; "SignatureMismatch"; "PeerIdNotFound"; "MergeMismatch"]%string &&
+  list_eqb String.eqb data_verifier_error_constructed ["MalformedKey"; "SignatureMismatch"; "CidNotFound"; "PeerIdNotFound"; "MergeMismatch"]%string &&
   list_eqb String.eqb verify_step_order ["cid_info_verify_cur"; "new_prev"; "new_cur"; "verify_cur"; "merge_prev_cur"]%string &&
   String.eqb data_verifier_error_maps_to "DataSignatureCheckError" &&
   merge_swaps_on_strictly_shorter && sign_cids_sorts && data_verifier_new_sorts.
